@@ -111,7 +111,7 @@ def strat_default(shard):
 
 
 def shards_default(tier):
-    n = 2 if tier == "quick" else 10
+    n = 2 if tier == "quick" else 40
     return [{"id": l, "l": l, "n": n, "cost": (l + 1) ** 3} for l in range(11)]
 
 
@@ -179,7 +179,7 @@ def conv_st(draw, l):
 
 
 def shards_conv_drawn(tier):
-    n = 10 if tier == "quick" else 200
+    n = 10 if tier == "quick" else 1000
     return [{"id": l, "l": l, "n": n} for l in (3, 4, 5, 6)]
 
 
@@ -269,7 +269,7 @@ def judge_malformed(case):
 
 
 def shards_malformed(tier):
-    k, n = (8, 60) if tier == "quick" else (32, 400)
+    k, n = (8, 60) if tier == "quick" else (32, 2000)
     return [{"id": i, "n": n} for i in range(k)]
 
 
